@@ -102,6 +102,40 @@ def reformat_openstep(text, rng):
     return "".join(s)
 
 
+def respace_openstep(text, style):
+    """The very same tokens (comments kept, nothing quoted or unquoted) with another uniform spelling of the insignificant
+    whitespace: 'tight' = none at all around punctuation (key=value;), 'wide' = tabs / two spaces around '=', 'lines' = every
+    token on its own line.  Whitespace between tokens carries no meaning in an OpenStep plist."""
+    toks = TOKEN.findall(text)
+    out = []
+    for i, t in enumerate(toks):
+        nxt = toks[i + 1] if i + 1 < len(toks) else ""
+        out.append(t)
+        punct = t in "{}()=;," or nxt in "{}()=;,"
+        if style == "tight":
+            out.append("" if punct else " ")
+            if t == ";":
+                out.append("\n")
+        elif style == "wide":
+            out.append("\t" if nxt == "=" else "  " if t == "=" else "\n" if t in ";{" else "" if t == "(" or nxt in ";,)" else " ")
+        else:
+            out.append("\n")
+    return "".join(out)
+
+
+UNICODE_ENTRY = re.compile(r"(?<![A-Za-z_.])unicode\s*=\s*([^;\"]*);")
+
+
+def unicode_entry_broken_over_lines(text):
+    """Whitespace inside the value of a `unicode` entry or before its `;` (spaces after commas, line breaks between tokens)."""
+    return any(re.search(r"\s", m.group(1).lstrip()) for m in UNICODE_ENTRY.finditer(text))
+
+
+def join_unicode_entries(text):
+    """Each `unicode = ...;` entry back on one line of its own, in the spelling Glyphs writes (nothing else is touched)."""
+    return UNICODE_ENTRY.sub(lambda m: "\nunicode = " + re.sub(r"\s+", "", m.group(1)) + ";\n", text)
+
+
 def reformat_ufo(src_ufo, dst_ufo, rng):
     shutil.copytree(src_ufo, dst_ufo)
     for root, _ds, fs in os.walk(dst_ufo):
@@ -185,7 +219,7 @@ def run(tier):
     gen_glyphs = []
     gfams = ["var1-onaxis", "var2-corners", "var1-nonexport", "kern-var1", "marks-var1", "marks-propagate", "static-basic", "var2-nested-xform", "var1-cubic", "var1-intermediate"]
     for i in range(10 if nq else 200):
-        model = families.make(gfams[i % len(gfams)], chk.seed, 5000 + i, overrides={"mapped": 0.0, "vertical": False, "explicit_metrics": False})
+        model = families.make(gfams[i % len(gfams)], chk.seed, 5000 + i, overrides={"mapped": 0.0, "vertical": False, "explicit_metrics": False, "unicodes": "multi"})
         if glyphs_render.expressible(model):
             d = os.path.join(chk.scratch, "gg", f"g{i}")
             path = glyphs_render.render(model, d)
@@ -230,6 +264,15 @@ def run(tier):
                 rp = os.path.join(wd, "reformatted.glyphs")
                 open(rp, "w", encoding="utf-8").write(reformat_openstep(text, r))
                 routes["reformatted"] = cli(rp, "refmt")
+                style = ["tight", "wide", "lines"][i % 3]
+                sp = os.path.join(wd, f"respaced-{style}.glyphs")
+                open(sp, "w", encoding="utf-8").write(respace_openstep(text, style))
+                routes["respaced"] = cli(sp, "respaced")
+                if routes["respaced"][1] is None and unicode_entry_broken_over_lines(open(sp, encoding="utf-8").read()):
+                    # known finding F48: is the line break inside a unicode entry the *only* thing in the way?
+                    jp = os.path.join(wd, f"respaced-{style}-unicode-joined.glyphs")
+                    open(jp, "w", encoding="utf-8").write(join_unicode_entries(open(sp, encoding="utf-8").read()))
+                    routes["respaced"] = routes["respaced"] + (cli(jp, "respaced-joined"),)
             except Exception:  # noqa
                 pass
         else:
@@ -253,7 +296,12 @@ def run(tier):
             shutil.rmtree(res["wd"], ignore_errors=True)
             continue
         ok_routes = 0
-        for name, (rc, sha, out) in res["routes"].items():
+        for name, route in res["routes"].items():
+            rc, sha, out = route[:3]
+            if name == "respaced" and len(route) > 3 and route[3][1] == base[1]:
+                chk.violation("route-fails:respaced:whitespace-inside-unicode-entry", f"{rel}: the same tokens with whitespace inside a `unicode = ...;` entry (between list items or before the `;`) are rejected (rc {rc}); "
+                              "with only those entries joined back onto one line the bytes equal the CLI's", replay={"src": res["src"], "route": name})
+                continue
             if rc is None:
                 chk.inconc({"design": rel, "route": name, "why": str(out)[:200]})
                 continue
@@ -276,7 +324,8 @@ def run(tier):
     chk.coverage.update({
         "distinct_nontrivial": nontrivial,
         "rule": "design = a Glyphs file (without FEA include) or a UFO; routes = CLI on the file, library Input::new + generate_font, Glyphs text in memory, "
-                "independently split .glyphspackage, one-source designspace with the public.* keys, re-formatted text (whitespace, plist key order, XML "
+                "independently split .glyphspackage, one-source designspace with the public.* keys, the same tokens with another uniform whitespace spelling "
+                "(key=value; / tabs around '=' / one token per line: a failing or differing compile is a violation), re-formatted text (whitespace, plist key order, XML "
                 "attribute order, optional quoting); oracle = sha256 equality with the CLI route; evaluations = route compiles; non-trivial = designs with "
                 ">= 3 routes producing a font",
         "samples": samples, "designs": len(designs),
